@@ -259,7 +259,11 @@ func (analyzerEngine) Info(prop, tier string) runner.Info {
 			for _, kw := range gen.HolderKw {
 				in.AllCells = append(in.AllCells, "schema/"+ct+"/"+kw)
 			}
-			in.AllCells = append(in.AllCells, "schema/"+ct+"/schema")
+			if ct == "definition" {
+				in.AllCells = append(in.AllCells, "schema/"+ct+"/root")
+			} else {
+				in.AllCells = append(in.AllCells, "schema/"+ct+"/schema")
+			}
 		}
 		in.AllCells = append(in.AllCells, "parameter/pathParam", "parameter/opParam", "response/defaultResponse", "response/codeResponse", "pathitem",
 			"paramItems/sharedParam", "paramItems/pathParam", "paramItems/opParam", "headerItems/sharedResponse/header", "headerItems/defaultResponse/header", "headerItems/codeResponse/header")
@@ -273,6 +277,16 @@ func (analyzerEngine) Info(prop, tier string) runner.Info {
 		for _, k := range []string{"pattern", "enum"} {
 			for _, w := range []string{"sharedParam", "pathParam", "opParam", "sharedResponse/header", "defaultResponse/header", "codeResponse/header"} {
 				in.AllCells = append(in.AllCells, k+"/"+w)
+				if strings.HasSuffix(w, "Param") || strings.HasSuffix(w, "header") {
+					for d := 1; d <= 3; d++ {
+						in.AllCells = append(in.AllCells, fmt.Sprintf("%s/%s/items%d", k, w, d))
+					}
+				}
+			}
+			for _, ct := range gen.Containers {
+				for d := 0; d <= 3; d++ {
+					in.AllCells = append(in.AllCells, fmt.Sprintf("%s/%s/schema%d", k, ct, d))
+				}
 			}
 		}
 	case "C14":
@@ -374,6 +388,9 @@ func (analyzerEngine) c11(res *runner.Result, sp *analysis.Spec, w *oracle.Walk)
 			k = "items"
 		} else if k == "schema" {
 			h := r.Holder
+			if h == "" {
+				h = "root"
+			}
 			res.Cell("schema/" + r.Container + "/" + h)
 		} else if k == "pathitem" {
 			res.Cell("pathitem")
